@@ -29,6 +29,7 @@ func sendsOnQueries(info *types.Info, n ast.Node) bool {
 }
 
 func runC14(c *Ctx) {
+	defer checkParamsUsed(c, "C14-R2", "internal/promapi.NewPrometheus", "internal/promapi.NewFailoverGroup")
 	p := c.P
 	c.Rule("C14-R1", "per-key lock dominates every send; deferred unlock; key covers distinguishing parameters; partitionLocker protocol", 30)
 	c.Rule("C14-R2", "pool-only execution and bounded worker count", 14)
